@@ -281,3 +281,11 @@ func ParamOf(v ssa.Value) *ssa.Parameter {
 	}
 	return nil
 }
+
+// LoadedFieldBase: v is `*(&x.f)`; returns type and field names and x.
+func LoadedFieldBase(v ssa.Value) (typ, field string, base ssa.Value, ok bool) {
+	if u, ok2 := v.(*ssa.UnOp); ok2 && u.Op == token.MUL {
+		return FieldRef(u.X)
+	}
+	return "", "", nil, false
+}
